@@ -199,6 +199,25 @@ class Ctx:
         """op in add sub mul div min max (floats: one correctly rounded op in dt; ints: wrap-around)
         plus and or xor shl shr floordiv rem for ints; a, b already of dtype dt."""
         assert a.dt == dt and b.dt == dt, (op, dt, a, b)
+        if op in ("min", "max") and (a.op == op or b.op == op) and not getattr(self, "_in_canon", False):
+            # min/max are associative, commutative and idempotent (NaN-propagating): canonical left-deep chain over
+            # the uid-sorted operand set, so that reductions over the same elements in a different order coincide
+            ops, stack = {}, [a, b]
+            while stack:
+                t = stack.pop()
+                if t.op == op and t.dt == dt:
+                    stack.extend(t.args)
+                else:
+                    ops[t.uid] = t
+            ops = [ops[k] for k in sorted(ops)]
+            self._in_canon = True
+            try:
+                acc = ops[0]
+                for o in ops[1:]:
+                    acc = self.bin(op, dt, acc, o)
+            finally:
+                self._in_canon = False
+            return acc
         x, y = a.cv, b.cv
         if is_float(dt):
             cv = fround_fmt(_fbin(op, x, y), dt) if op not in ("min", "max") else _fbin(op, x, y)
